@@ -31,6 +31,7 @@ def tasks(tier):
     for ph, fb in P:
         for rg in ("matrix_dislocation", "frictional_yielding"):
             out.append(("t_scaling", {"n_grains": 3, "phase": ph, "fabric": fb, "regime": rg}))
+    out += [("t_scaling", {"n_grains": n, "phase": "olivine", "fabric": "olivine_A", "regime": "matrix_dislocation"}) for n in (1, 5)]
     return out
 
 
